@@ -888,7 +888,8 @@ def r18_11(ctx, counts) -> RuleResult:
         if not by_class:
             continue
         n += 1
-        excl = [fa for fa in fs if fa.startswith('-') and f'isinstance({v}, bool)' in fa]
+        excl = [fa for fa in fs if (fa.startswith('-') and f'isinstance({v}, bool)' in fa)
+                or (fa.startswith('+') and f'not isinstance({v}, bool)' in fa)]
         res.instances.append(f'{f.key}: L{nd.ast.lineno} `return {v}` under {by_class[0][:50]}: '
                              f'bool/int excluded: {bool(excl)}')
         if excl:
